@@ -48,18 +48,48 @@ def build_and_test(d):
     return (n_ok == 60 and "Failed" not in out), "%d/60 tests OK" % n_ok
 
 
+PROP_DEPENDENT = {"T4"}      # rules whose scope depends on the property they run for
+
+
 def run_checks(d):
-    ev = tempfile.mkdtemp(prefix="nvev-")
-    env = dict(os.environ, NV_EVIDENCE_DIR=ev)
+    """Every property's rules on the scratch tree d, facts extracted once and every rule run once:
+    {property: {exit, rules that reported a violation, first violation}} as ./check would exit."""
+    sys.path.insert(0, VERIF)
+    from nv import facts, report
+    from nv.props import PROPS as SPECS, all_rules
+    rules = all_rules()
     res = {}
+    try:
+        prog = facts.load_program(d)
+    except facts.AnalysisBroken as e:
+        return {p: {"exit": 2, "rules": [], "first": "extraction: %s" % str(e)[:200]} for p in PROPS if p in SPECS}
+    per_rule = {}
     for p in PROPS:
-        rc, out = sh("./check %s --no-selftest --repo %s" % (p, d), cwd=VERIF, env=env, timeout=900)
-        if "unknown property" in out:
+        if p not in SPECS:
             continue
-        rules = sorted({l.split("rule=")[1].split()[0] for l in out.splitlines() if l.strip().startswith("violation rule=")})
-        res[p] = {"exit": rc, "rules": rules,
-                  "first": next((l.strip()[:300] for l in out.splitlines() if l.strip().startswith("violation")), "")}
-    shutil.rmtree(ev, ignore_errors=True)
+        for rid in SPECS[p]["rules"]:
+            k_ = (rid, p) if rid in PROP_DEPENDENT else rid
+            if k_ in per_rule or rid not in rules:
+                continue
+            ctx = report.Ctx(prog, p, "quick")
+            ctx.run(rid, rules[rid])
+            viol = [r for r in ctx.results if r.status == "violation"]
+            bad = [r for r in ctx.results if r.status in ("broken", "inconclusive")]
+            per_rule[k_] = (viol, bad)
+    for p in PROPS:
+        if p not in SPECS:
+            continue
+        get = lambda rid: per_rule.get((rid, p) if rid in PROP_DEPENDENT else rid, ([], []))
+        vs = [(rid, r) for rid in SPECS[p]["rules"] for r in get(rid)[0]]
+        bs = [(rid, r) for rid in SPECS[p]["rules"] for r in get(rid)[1]]
+        first = ""
+        if vs:
+            rid, r = vs[0]
+            first = ("violation rule=%s %s %s: %s" % (rid, r.func, r.construct, r.detail))[:300]
+        elif bs:
+            rid, r = bs[0]
+            first = ("%s rule=%s %s %s: %s" % (r.status, rid, r.func, r.construct, r.detail))[:300]
+        res[p] = {"exit": 1 if vs else (2 if bs else 0), "rules": sorted({rid for rid, r in vs}), "first": first}
     return res
 
 
